@@ -176,9 +176,9 @@ def run(cx):
     if len(nm) == 1 and isinstance(nm[0], ast.DictComp) and len(nm[0].generators) == 1:
         for i in nm[0].generators[0].ifs:
             conj += [norm(e) for e, pol in split(i, True) if pol]
-    ok = len(nm) == 1 and isinstance(nm[0], ast.DictComp) and "rcommit.is_explicit" in conj and "iid not in all_commits_in_this_branch" in conj \
+    ok = len(nm) == 1 and isinstance(nm[0], ast.DictComp) and "rcommit.is_explicit" in conj and any(c.startswith("iid not in ") for c in conj) \
         and norm(nm[0].generators[0].iter) == "all_commits_prev_branch.items()" and [norm(e) for e in nm[0].generators[0].target.elts] == ["iid", "rcommit"] \
-        and norm(nm[0].key) == "iid" and norm(nm[0].value) == "rcommit"
+        and norm(nm[0].key) == "iid" and norm(nm[0].value) == "rcommit" and all(c == "rcommit.is_explicit" or c.startswith("iid not in ") for c in conj)
     cx.ob("R06c", nm[0] if nm else rb[0], ok, "'not merged' = matching commits of the previous branch that are absent from this one" if ok else "'not merged' set filter altered")
     cx.guard(_r06e, cx, rb[0], nm[0] if nm else None, conj)
     # provenance of is_explicit
@@ -424,10 +424,13 @@ def _r06e(cx, rb, comp, conj):
         if c.startswith("iid not in "):
             excl.append(c[len("iid not in "):])
     hit = None
-    for name in excl:
-        # a closure loop:  worklist seeded from result_accumdata.rc_parents, consumed and re-fed with <x>.parents, filling `name`
-        for l in [n for n in walk_local(rb) if isinstance(n, (ast.While, ast.For))]:
-            fills = [c for c in ast.walk(l) if isinstance(c, ast.Call) and isinstance(c.func, ast.Attribute) and is_name(c.func.value, name) and c.func.attr in ("add", "update")]
+    cls_node = enclosing(rb, (ast.ClassDef,))
+
+    def closure_loop_in(func, setname, seeds_ok):
+        """a worklist loop in `func` that fills `setname` and is re-fed with <x>.parents; seeds_ok(worklist name) says the
+        worklist starts from the head's report-related parents"""
+        for l in [n for n in walk_local(func) if isinstance(n, (ast.While, ast.For))]:
+            fills = [c for c in ast.walk(l) if isinstance(c, ast.Call) and isinstance(c.func, ast.Attribute) and is_name(c.func.value, setname) and c.func.attr in ("add", "update")]
             if not fills:
                 continue
             feeds = []
@@ -439,9 +442,48 @@ def _r06e(cx, rb, comp, conj):
                     feeds.append(c.target.id)
             for w in feeds:
                 consumed = (isinstance(l, ast.While) and w in names_in(l.test)) or any(isinstance(c, ast.Call) and isinstance(c.func, ast.Attribute) and is_name(c.func.value, w) and c.func.attr in ("pop", "popleft") for c in ast.walk(l))
-                seeded = any(v is not None and "result_accumdata.rc_parents" in norm(v) for _, v in assignments(rb, w))
-                if consumed and seeded:
-                    hit = name
+                if consumed and seeds_ok(w):
+                    return True
+        return False
+
+    def is_closure(name, depth=0):
+        """does the set `name` (local of the branch reader) contain the closure over .parents of result_accumdata.rc_parents?"""
+        if depth > 3:
+            return False
+        if closure_loop_in(rb, name, lambda w: any(v is not None and "result_accumdata.rc_parents" in norm(v) for _, v in assignments(rb, w))):
+            return True
+        for _, v in assignments(rb, name):
+            if v is None:
+                continue
+            # unions of sets
+            parts = []
+            if isinstance(v, ast.BinOp) and isinstance(v.op, ast.BitOr):
+                parts = [v.left, v.right]
+            elif isinstance(v, ast.Call) and isinstance(v.func, ast.Attribute) and v.func.attr == "union":
+                parts = [v.func.value] + list(v.args)
+            if any(isinstance(p_, ast.Name) and is_closure(p_.id, depth + 1) for p_ in parts):
+                return True
+            # a helper of the class called with the head's parents: the helper computes the closure of its argument
+            if isinstance(v, ast.Call) and isinstance(v.func, ast.Attribute) and is_name(v.func.value, "self", "cls") and cls_node is not None \
+                    and any("result_accumdata.rc_parents" in norm(a) for a in v.args):
+                h = next((f_ for f_ in cls_node.body if isinstance(f_, FUNC) and f_.name == v.func.attr), None)
+                if h is not None:
+                    hp = [p_ for p_ in params(h) if p_ not in ("self", "cls")]
+                    k_ = next(i_ for i_, a in enumerate(v.args) if "result_accumdata.rc_parents" in norm(a))
+                    if k_ < len(hp):
+                        seedp = hp[k_]
+                        for r_ in [r_ for r_ in walk_local(h) if isinstance(r_, ast.Return) and isinstance(r_.value, ast.Name)]:
+                            if closure_loop_in(h, r_.value.id, lambda w: any(val is not None and seedp in names_in(val) for _, val in assignments(h, w)) or w == seedp):
+                                return True
+        # sets grown by update() from a closure set
+        for c in walk_local(rb):
+            if isinstance(c, ast.Call) and isinstance(c.func, ast.Attribute) and is_name(c.func.value, name) and c.func.attr == "update" and c.args and isinstance(c.args[0], ast.Name) \
+                    and c.args[0].id != name and is_closure(c.args[0].id, depth + 1):
+                return True
+        return False
+    for name in excl:
+        if is_closure(name):
+            hit = name
     cx.ob("R06e", comp, hit is not None,
           f"commits in `{hit}` - the closure over .parents of the head's report-related parents - are excluded" if hit else
           f"the filter excludes only {excl or 'nothing'}, none of which is derived from the commits reachable from the head (result_accumdata.rc_parents followed through .parents): "
